@@ -287,6 +287,19 @@ fn mutate(rng: &mut Rng, tp: &TProof, uni: &[Term], case: &Case, others: &[TProo
     }
 }
 
+/// the root a path proof hashes up to along `key` (Trie!HashUp)
+fn implied_root(tp: &TProof, key: &[u8]) -> Term {
+    let mut node = match &tp.terminal {
+        TTerminal::Leaf(k, v) => Term::L(k.clone(), v.clone()),
+        TTerminal::Term(_) => Term::T,
+    };
+    for i in (0..tp.sibs.len()).rev() {
+        let s = tp.sibs[i].clone();
+        node = if key[i] == 1 { Term::I(Box::new(s), Box::new(node)) } else { Term::I(Box::new(node), Box::new(s)) };
+    }
+    node
+}
+
 fn terminal_path(tp: &TProof, key: &[u8]) -> Vec<u8> {
     key[..tp.sibs.len().min(key.len())].to_vec()
 }
@@ -411,7 +424,8 @@ fn run_case<H: HashAlgorithm>(case: &Case, scratch: &Path, out: &mut dyn Write) 
             continue;
         }
         ops.sort();
-        let malform = if u % 3 == 2 { rng.below(5) + 1 } else { 0 };
+        let malform = if u % 3 == 2 { rng.below(6) + 1 } else { 0 };
+        let mut foreign_idx: Option<usize> = None;
         // group by terminal path
         let mut groups: BTreeMap<Vec<u8>, (TProof, Vec<u8>, Vec<(Vec<u8>, Option<String>)>)> = BTreeMap::new();
         for (k, v) in &ops {
@@ -421,6 +435,20 @@ fn run_case<H: HashAlgorithm>(case: &Case, scratch: &Path, out: &mut dyn Write) 
         }
         let mut ups: Vec<(TProof, Vec<u8>, Vec<(Vec<u8>, Option<String>)>)> = groups.into_values().collect();
         match malform {
+            6 => {
+                // one path is a proof against ANOTHER root (a sibling replaced: it verifies against the root it
+                // hashes up to, not against prev_root); verify_update must answer RootMismatch
+                let gi = if ups.len() > 1 { 1 + rng.below(ups.len() as u64 - 1) as usize } else { 0 };
+                let n = ups[gi].0.sibs.len();
+                if n > 0 {
+                    let i = rng.below(n as u64) as usize;
+                    let cands: Vec<&Term> = uni.iter().filter(|t| **t != ups[gi].0.sibs[i]).collect();
+                    if !cands.is_empty() {
+                        ups[gi].0.sibs[i] = cands[rng.below(cands.len() as u64) as usize].clone();
+                        foreign_idx = Some(gi);
+                    }
+                }
+            }
             1 if ups.len() > 1 => ups.swap(0, 1),
             2 => {
                 if let Some(g) = ups.iter_mut().find(|g| g.2.len() > 1) {
@@ -454,10 +482,11 @@ fn run_case<H: HashAlgorithm>(case: &Case, scratch: &Path, out: &mut dyn Write) 
         let mut real_ups = Vec::new();
         let mut ups_json = Vec::new();
         let mut ok_all = true;
-        for (tp, key, gops) in &ups {
+        for (ui, (tp, key, gops)) in ups.iter().enumerate() {
             let real = tp.to_real::<H>(&sp);
             let rk = sp.real_key(key);
-            match real.verify::<H>(&rk.view_bits::<Msb0>()[..sp.l], root) {
+            let vroot = if foreign_idx == Some(ui) { sp.eval::<H>(&implied_root(tp, key)) } else { root };
+            match real.verify::<H>(&rk.view_bits::<Msb0>()[..sp.l], vroot) {
                 Ok(v) => {
                     real_ups.push(PathUpdate {
                         inner: v,
@@ -466,8 +495,12 @@ fn run_case<H: HashAlgorithm>(case: &Case, scratch: &Path, out: &mut dyn Write) 
                 }
                 Err(_) => ok_all = false,
             }
-            ups_json.push(json!({"key":key,"proof":tp.to_json(),
-                "ops": gops.iter().map(|(k,v)| json!([k, v.clone().unwrap_or("Nil".into())])).collect::<Vec<_>>()}));
+            let mut uj = json!({"key":key,"proof":tp.to_json(),
+                "ops": gops.iter().map(|(k,v)| json!([k, v.clone().unwrap_or("Nil".into())])).collect::<Vec<_>>()});
+            if foreign_idx == Some(ui) {
+                uj["foreign"] = json!(true);
+            }
+            ups_json.push(uj);
         }
         if !ok_all {
             continue;
@@ -766,7 +799,10 @@ fn mutate_multi<H: HashAlgorithm>(rng: &mut Rng, mp: &MultiProof, sp: &Space, un
             if np > 0 {
                 let i = rng.below(np as u64) as usize;
                 let k = &case.universe[rng.below(case.universe.len() as u64) as usize];
-                let d = rng.below(k.len() as u64 + 1) as usize;
+                // a position shorter than a model key: at full model length a position would compare EQUAL to a
+                // leaf's key in Trie.tla, while the real leaf path (256 bits) is strictly longer - an artefact of the
+                // embedding, not a behaviour of the verifier
+                let d = rng.below(k.len() as u64) as usize;
                 m.paths[i].terminal = PathProofTerminal::Terminator(mk_pos(sp.real_key(&k[..d]), d));
                 (m, format!("terminal-term@{i}"))
             } else {
